@@ -43,6 +43,7 @@ class Contract:
         self.requires_ = []     # [(label, text)]
         self.ensures_ = []      # [(label, text)]
         self.raises_ = []       # [(exc name, when text, iff bool)]
+        self.exc_ensures_ = []  # [(exc name, label, text)]: exceptional postconditions (state when the call ends with that exception)
         self.modifies_ = None   # list of lvalue texts, or None = unchecked
         self.returns_ = None    # desc of result (needed when used as a callee contract)
         self.loops = {}         # ordinal -> LoopSpec
@@ -85,6 +86,11 @@ class Contract:
         self.raises_.append((exc, when, iff))
         if at_raise:
             self.at_raise.add(len(self.raises_) - 1)
+        return self
+
+    def ensures_on_raise(self, exc, text, label=None):
+        """Exceptional postcondition: holds of the state in which the function ends with exception `exc` (old() = entry state)."""
+        self.exc_ensures_.append((exc, label or f"on-{exc}-{len(self.exc_ensures_)}", text))
         return self
 
     def modifies(self, *lvalues):
